@@ -244,6 +244,15 @@ def run(ctx):
     from .c04 import rule_absolute_indices
     rule_absolute_indices(ctx, mir, rid="R05.8")
 
+    # ------------------------------------------------------------------ R05.9 .. R05.11 (shared)
+    # scope boundaries: which elements are open (namespace / self-closing handling) and the VM's recovery stages
+    from .c03 import rule_foreign_feedback_table, rule_self_closing_ns, spec_tables
+    from ..smimpl import index as _index5
+    rule_foreign_feedback_table(ctx, _index5(), spec_tables(), rid="R05.9")
+    rule_self_closing_ns(ctx, mir, rid="R05.10")
+    from .c04 import rule_pipeline
+    rule_pipeline(ctx, mir, rid="R05.11")
+
     ctx.not_decided += ["exactly-once delivery over all open/close sequences (needs the selector VM's run-time behaviour)", "text flushed before a tag is reported is rule R02.4 (C02)"]
     return ("Bookkeeping clauses of scoped dispatch read from the expanded syntax tree and MIR: balance and independence of handler activation, "
             "the kind/flag/token table across four functions, registration and iteration order, one-shot consumption of element/end-tag/end handlers.")
